@@ -4,6 +4,8 @@ by kernel evaluation, instantiated at the generated tables. Hand-written: the ge
 *discharge* these, never restate them.
 -/
 import PhQVerif.Core.Check
+import PhQVerif.Core.Lex
+import PhQVerif.Core.Angle
 import PhQVerif.Generated.Tables
 import PhQVerif.Generated.Kernels
 
@@ -58,5 +60,28 @@ def C02pairs (fm : Fm) (tr : Nat × List (Nat × Nat × Expr × Expr)) : Bool :=
 
 /-- Same formula in float, double and long double. -/
 def SameFormula (t : Entry × Entry × Entry) : Bool := sameFormula t
+
+/-- C14: comparison operators denote the lexicographic order on the stored components. -/
+def C14cmp (e : Entry) : Bool := checkCompare e
+/-- C14: hashing feeds exactly the stored components, in order. -/
+def C14hash (row : Entry × List Expr) : Bool := checkHashed row
+
+/-- Comparisons between two compile-time constants that the translator folded out of a decision
+tree: both sides are input-free and the recorded outcome is what the soft-float evaluates. -/
+def ConstCmp (r : CmpOp × Expr × Expr × Bool) : Bool :=
+  r.2.1.closed && r.2.2.1.closed && !r.2.1.hasLibm && !r.2.2.1.hasLibm &&
+    r.1.evalF (r.2.1.evalF Libm.none (fun _ => .nan)) (r.2.2.1.evalF Libm.none (fun _ => .nan)) == r.2.2.2
+
+/-- C11: every angle entry applies `acos` only to a clamped argument. -/
+def C11clamp (e : Entry) : Bool := checkAngle e
+/-- C11: `(e₁, e₂)` with the argument types of `e₂` those of `e₁` reversed: swapping the arguments of
+`e₁` gives `e₂` up to the order of factors of floating-point products. -/
+def C11sym (t : Entry × Entry) : Bool :=
+  match t.1.argSizes with
+  | [n, m] =>
+    (t.1.tree.renameVars (fun i => if i < m then n + i else i - m)).commNorm.beq t.2.tree.commNorm
+  | _ => false
+/-- C11: a quantity-level angle constructor / member has exactly the kernel's tree. -/
+def C11kernel (t : Entry × Entry) : Bool := t.1.tree.beq t.2.tree
 
 end PhQVerif.Chk
